@@ -79,3 +79,27 @@ CLAIMED['C01'] = ('model_checking',
     'off the real Context after the same catcode() calls. NF-LEX exclusions: hex ^^ab; category 5 only for LF; named deviations '
     'D1 (adjacent paragraph tokens merged), D2 (escape+EOL gives a space), D6 (ignored characters dropped also inside names).',
     TECH)
+TECH_REF = 'TLA+ reference machine + rule layer executed and checked by TLC on generated programs; conformance by replaying every program into the real engine'
+CLAIMED['C02'] = ('model_checking',
+    'Seeded programs of the NF-MACRO macro language (6000 quick / 60000 thorough: \\def/\\gdef with 0-9 undelimited, delimited and '
+    'bracketed parameters, \\newcommand with optional argument, nested calls in bodies and arguments, inner definitions with ##, \\let, '
+    '\\csname, \\expandafter, nested groups) are executed by TLC on the reference machine Expand.tla.  TLC checks at EVERY macro call '
+    'that the code-shaped matcher (MatchCode: Definition.invoke parameter by parameter, single-token delimiters without brace '
+    'awareness) agrees with TeX\'s rule (MatchRule: shortest prefix at brace depth 0, outer braces stripped) -- SubstExact -- plus '
+    'GroupBalanced and NoError, and prints the visible text; the same programs are parsed by the real engine and text and final '
+    'context depth compared.',
+    'DESIGN.md#c02',
+    'Trusted: TLC, the transcription of TeX\'s substitution rules in Expand.tla, the program generator harness/expandgen.py (NF-MACRO). '
+    'Programs are generated by the harness and passed to TLC as data; TLC is the reference executor and invariant checker, the state '
+    'space per program is a single behaviour.',
+    TECH_REF)
+CLAIMED['C03'] = ('model_checking',
+    'Seeded programs of nested conditionals (NF-COND/NF-NUM: \\iftrue \\iffalse \\ifnum \\ifdim \\ifodd \\ifcase \\ifx \\ifdefined and '
+    '\\newif switches with setters, \\else/\\or, depth <= 4, \\ifcase selectors from -2 to beyond the listed cases, macro-produced '
+    'operands, side effects planted in branches, inside groups and macro bodies) are executed by TLC on Expand.tla.  At EVERY '
+    'conditional TLC checks BranchIsTeX: the linear scanner of processIfContent (nesting counter, case list, \\ifcase indexing) '
+    'selects exactly the text the syntactic structure prescribes (BranchRule by recursive descent, inner conditionals opaque).  '
+    'Each program ends by printing the side-effect macro and all switches; the real engine\'s text is compared.',
+    'DESIGN.md#c03',
+    'Trusted: TLC, the transcription of TeX\'s conditional rules in Expand.tla, the generator (NF-COND, NF-NUM).',
+    TECH_REF)
